@@ -19,8 +19,12 @@ META = {
                 "Each distinct reachable quiescent model state yields a scenario that is replayed on real stores sharing a real file; the "
                 "same clause operators are evaluated by TLC on the projected real states (memory of each store, raw file read by the driver, "
                 "result of load_cache_data) after every call. Unbounded parts (all operation sequences, all file contents, real schedulers) "
-                "are sampled: seeded random runs with random limits, every corrupt-content class, counter boundaries, a writer killed "
-                "mid-write by a file-size limit, and 2-4 writer processes racing a reader.",
+                "are sampled: seeded random runs with random limits (some with different limits per store), every corrupt-content class, "
+                "counter boundaries, parseable but abnormal files (future-dated, duplicate, empty-peer entries), every multiaddress "
+                "presentation judged by identity (crafted = the canonical address of the presented peer; entries stored under the peer id "
+                "they carry), many ports of one known peer, stores made by new_from_peers_args (first / local / bootstrap_cache_dir) "
+                "and with cache writing disabled, a flush that cannot write, a writer killed mid-write by a file-size limit, 2-4 writer "
+                "processes racing a reader, and 2-8 owners whose flush tasks run inside ONE process (clone + spawn, as the node does).",
         "note": "trusted: rename(2) atomicity of the file system used for /verif/work, the driver's serde mirror of the cache file, TLC. "
                 "Flush steps of one store cannot be interleaved with another store's inside one process (the code offers whole "
                 "sync_and_flush_to_disk calls); fine-grained interleavings are explored in the model and by free-running processes only.",
@@ -173,6 +177,30 @@ def run(prop, tier, replay=None):
                 "Delete", "ExpireFile", "Stress", "Torn"}
         if need - kinds:
             raise ToolError("event kinds missing from the implementation trace: %s" % sorted(map(str, need - kinds)))
+        # the generator classes added for the blind spots have to be there, with the outcomes that make their clauses bite
+        srcs = {e["src"] for e in events}
+        need_src = {"shapes", "corrupt", "counters", "ports", "abnormal", "args", "unwritable", "random", "torn", "stress"}
+        if need_src - srcs:
+            raise ToolError("generator classes missing from the implementation trace: %s" % sorted(need_src - srcs))
+        facts = {
+            "a flush that failed": any(e["ev"] == "Flush" and e["res"] == "Err" for e in events),
+            "a flush of a store that must not write": any(e["ev"] == "Flush" and e.get("dis") for e in events),
+            "a store made by new_from_peers_args": any(e["ev"] == "New" and "args" in e and e["res"] == "Ok" for e in events),
+            "a first-node store": any(e["ev"] == "New" and e.get("first") for e in events),
+            "a file with a future-dated address": any(e["ev"] == "SetFile" and any(x.get("fut") for x in e["raw"].get("c", [])) for e in events),
+            "a file with a peer without address": any(e["ev"] == "SetFile" and e["raw"].get("kind") == "cache" and
+                                                      e["raw"]["np"] > len({x["k"] for x in e["raw"]["c"]}) for e in events),
+            "a file with the same address twice": any(e["ev"] == "SetFile" and e["raw"].get("kind") == "cache" and
+                                                      len({(x["k"], x["a"]) for x in e["raw"]["c"]}) < len(e["raw"]["c"]) for e in events),
+            "an addition to a known peer at its address limit": any(
+                e["ev"] == "Add" and e["res"] == "Ok" and e["obs"]["mp"] == e["cfg"]["maxA"] and
+                sum(1 for x in e["obs"]["mem"] if x["k"] == e["k"]) == e["cfg"]["maxA"] for e in events),
+            "a dialable presentation crafted": any(e["ev"] == "Craft" and e.get("ok") and e.get("same") for e in events),
+            "tasks of one process flushing": any(e["ev"] == "Stress" and e.get("mode") == "tasks" and e.get("flush_ok", 0) > 0 for e in events),
+        }
+        missing = sorted(k for k, ok in facts.items() if not ok)
+        if missing:
+            raise ToolError("situations the C18 generators must produce did not occur: %s" % missing)
     reported = set()
     for x in sorted(rep["violations"], key=lambda x: x["line"]):
         e = events[x["line"] - 1]
@@ -209,7 +237,9 @@ def run(prop, tier, replay=None):
         by_src[e["src"]] = by_src.get(e["src"], 0) + 1
     v.cov["by_source"] = by_src
     stress = [e for e in events if e["ev"] == "Stress"]
-    v.cov["stress"] = [{k: e[k] for k in ("writers", "flushes", "loads", "data", "io_err", "parse_err", "panics")} for e in stress]
+    v.cov["stress"] = [{k: e.get(k) for k in ("mode", "writers", "flushes", "loads", "data", "io_err", "parse_err", "panics", "flush_ok", "flush_err")}
+                       for e in stress]
+    v.cov["optional_classes"] = {n: bool(os.environ.get(n)) and os.environ.get(n) != "0" for n in ("VERIF_ENABLE_PLAINUDP", "VERIF_ENABLE_DIRTYFILE")}
     if mc is not None:
         v.cov["scenarios_replayed"] = len(scen)
         v.cov["scenarios_distinct_api_level"] = n_api
@@ -225,5 +255,8 @@ def run(prop, tier, replay=None):
     v.assumptions = ["rename(2) within one directory is atomic on the file system holding /verif/work",
                      "an address is expired / fresh only at >= 1800 s from the expiry edge (I11); in-memory entries are always fresh unless the expiry is zero",
                      "the on-disk side of a merge is what load_cache_data returns (load applies the clean-up the statement excepts)",
-                     "limits >= 1; processes do not die except the one writer that hits the file-size limit"]
+                     "limits >= 1; processes do not die except the one writer that hits the file-size limit",
+                     "dialable = ip4 + (udp/quic-v1 | tcp [/ws]) + p2p; udp without quic-v1 is generated only with VERIF_ENABLE_PLAINUDP, files "
+                     "holding ill-formed addresses or addresses under another peer's key only with VERIF_ENABLE_DIRTYFILE (both off by default)",
+                     "an address last seen in the future may be kept or dropped (the statement does not say whether it is expired)"]
     return v.finish()
